@@ -58,9 +58,19 @@ def faceGeom (fx : FX R) (x : Nat → V3 R) (f : Face) : V3 R × R :=
 def cellArea (fx : FX R) (x : Nat → V3 R) (F : List Face) : R :=
   F.foldl (fun s f => s + (faceGeom fx x f).2) (lit 0)
 
-/-- the accumulation loop of `compute_volume` (six times the signed volume) -/
+/-- `cell::get_volume_reference_point`: the loop over `face_lst_` returns at the first USED face (`F` is the list of the
+    used faces in slot order, see `liveFaces`), and falls through to the default when no face is used -/
+def volRefPoint (x : Nat → V3 R) (F : List Face) : V3 R :=
+  (F.head?.map fun f => volRefOfFace (x f.a) (x f.b) (x f.c)).getD volRefDefault
+
+/-- the accumulation loop of `compute_volume` with the coordinates taken relative to `o` -/
+def cellVol6At (x : Nat → V3 R) (o : V3 R) (F : List Face) : R :=
+  F.foldl (fun s f => s + volTerm o (x f.a) (x f.b) (x f.c)) (lit 0)
+
+/-- `const vec3 origin = get_volume_reference_point();` and the accumulation loop of `compute_volume`
+    (six times the signed volume) -/
 def cellVol6 (x : Nat → V3 R) (F : List Face) : R :=
-  F.foldl (fun s f => s + volTerm (x f.a) (x f.b) (x f.c)) (lit 0)
+  cellVol6At x (volOrigin (volRefPoint x F)) F
 
 /-- `compute_volume` -/
 def cellVolume (x : Nat → V3 R) (F : List Face) : R := volFinish (cellVol6 x F)
